@@ -284,6 +284,8 @@ def evs(n, env, events=None):
             raise Unsupported("division by zero")
         if isinstance(a, tuple) and a and a[0] == "P" and op in ("+", "-") and isinstance(b, int):
             return ("P", a[1], a[2] + (b if op == "+" else -b))
+        if isinstance(a, tuple) and isinstance(b, tuple) and a and b and a[0] == "P" and b[0] == "P" and a[1] == b[1] and op == "-":
+            return a[2] - b[2]                  # distance between two positions of one modelled array
         if isinstance(a, tuple) or isinstance(b, tuple):
             if op in ("==", "!="):
                 return int((a == b) == (op == "=="))        # a modelled pointer never equals an integer (NULL)
@@ -318,6 +320,8 @@ def evs(n, env, events=None):
         return env.get("$ret:%s" % call_name(n), 0)
     if k == "sizeof":
         return n.get("cv", 0)
+    if k == "str":
+        return n.get("s", "")
     raise Unsupported("expression kind %s" % k)
 
 
